@@ -282,6 +282,17 @@ var c02Templates = []diffTmpl{
 	{"local function loop(n, acc) if n == 0 then return acc end; return loop(n - 1, acc + x) end; emit(loop(60, 0))", "int"},
 	{"local function a(n) if n == 0 then return x, y end; return a(n - 1) end; emit(a(3)); local p, q, r = a(2); emit(p, q, r)", "num"},
 	{"local function f(...) return select('#', ...) end; local function g(...) return f(...) end; emit(g(), g(x), g(x, nil), g(nil, nil, nil))", "num"},
+	// constructors with calls in keyed / last positions
+	{"local function f() return x, y end; local t = {1, 2, k = f()}; emit(#t, t[3], t.k); local u = {k = f(), f()}; emit(#u, u[1], u[2], u.k); local w = {f(), k = f()}; emit(#w, w[1], w[2], w.k)", "num"},
+	{"local function f(...) return {k = ..., ...} end; local t = f(x, y); emit(#t, t[1], t[2], t.k); local function g(...) return {..., k = ...} end; local u = g(x, y); emit(#u, u[1], u[2], u.k)", "num"},
+	// generic for with explicit expression lists
+	{"local t = {x, y, z}; local n = 0; do local dead = 99 end; for k, v in next, t do n = n + 1; emit(k, v) end; emit(n)", "num"},
+	{"local c = 0; local function f() c = c + 1; return {x, y} end; local n = 0; for k in next, f() do n = n + 1 end; emit(n, c)", "num"},
+	{"local function it(s, c) if c < 2 then return c + 1, s end end; for a, b in it, x, 0 do emit(a, b) end; for a in it, y, 0 do emit(a) end; for a, b, c in it, z, 1 do emit(a, b, c) end", "num"},
+	{"local function gen() return function(s, c) if c < s then return c + 1 end end, 2, 0 end; for i in gen() do emit(i + x) end; for i, j in (gen()) do emit('never') end", "int"},
+	// the compatibility arg table
+	{"local function f(a, b, ...) return arg end; local r = f(x, y, z, 1); emit(type(r), r.n, r[1], r[2]); local function g() return f(x, y, z) end; local q = g(); emit(type(q), q.n, q[1])", "num"},
+	{"local function f(...) return arg.n, arg[1], arg[3] end; emit(f()); emit(f(x)); emit(f(x, nil, z))", "num"},
 	// nesting
 	{"local function f(a, b) return a + b, a - b end; local function g(...) return f(...) end; emit(g(f(x, y)))", "num"},
 	{"local function mk() return function(a) return a, x end end; emit(mk()(y)); emit((mk()(y)))", "num"},
@@ -289,7 +300,7 @@ var c02Templates = []diffTmpl{
 
 // C02.tmpl — call and return adjustment, whole pipeline against R-lua.
 //
-//verif:harness prop=C02 tier=quick bounds="20 call templates: 0..3 fixed parameters x vararg x 0..4 arguments x result contexts (statement, parenthesised, middle, last in argument list / return / constructor / assignment), Lua and Go callees, method sugar, __call, tail calls incl. depth 60 > CallStackSize 32; inputs 3 symbolic float64 (or 32-bit ints)"
+//verif:harness prop=C02 tier=quick bounds="28 call templates: 0..3 fixed parameters x vararg x 0..4 arguments x result contexts (statement, parenthesised, middle, last in argument list / return / constructor / assignment), Lua and Go callees, method sugar, __call, tail calls incl. depth 60 > CallStackSize 32; inputs 3 symbolic float64 (or 32-bit ints)"
 func H_C02_tmpl() {
 	t := c02Templates[VChoice(len(c02Templates))]
 	diffRun(t.src, t.src, c01Inputs(t.kind), Options{CallStackSize: 32})
